@@ -246,6 +246,7 @@ def run(rep, tier, seed, replay=None):
         return
     # walk programs
     pos, reported, okc, ndiff, nviol = 0, False, 0, 0, 0
+    first_cex, first_diff = None, None
     known = C.known_findings("C16")
     seen = {}
     for p in progs:
@@ -274,19 +275,23 @@ def run(rep, tier, seed, replay=None):
                 kf = [x for x in known if x["signature"] in v]
                 if kf:
                     seen.setdefault(kf[0]["id"], (kf[0], p[:j + 1], v))
-                elif not reported:
-                    rep.violation("counterexample", dict(harness="c16_files", program=p[:j + 1], failing_op=op, observed=a, expected=v))
-                    reported = True
+                elif first_cex is None:
+                    first_cex = dict(harness="c16_files", program=p[:j + 1], failing_op=op, observed=a, expected=v)
                 good = False
             if a != b and good:
                 ndiff += 1
-                if not reported:
-                    rep.violation("unverified", dict(broken="correspondence c16_files vs model file: outputs differ", program=p[:j + 1],
-                                                     failing_op=op, impl=a, model=b, note="the flat-file oracle accepts this run"), no_input=True)
-                    reported = True
+                if first_diff is None:
+                    first_diff = dict(broken="correspondence c16_files vs model file: outputs differ", program=p[:j + 1],
+                                      failing_op=op, impl=a, model=b, note="the flat-file oracle accepts every explored run")
                 good = False
         if good:
             okc += 1
+    if not reported:
+        # a failing input (oracle) is preferred over a bare model/code disagreement
+        if first_cex is not None:
+            rep.violation("counterexample", first_cex)
+        elif first_diff is not None:
+            rep.violation("unverified", first_diff, no_input=True)
     rep.cov["traces_validated_against_impl"] = okc
     rep.cov["oracle_failures"] = nviol
     rep.cov["model_impl_disagreements"] = ndiff
